@@ -563,6 +563,10 @@ class Sum(monoidal.Sum, Diagram):
     def eval(self, contractor=None):
         return sum(term.eval(contractor=contractor) for term in self.terms)
 
+    def grad(self, var, **params):
+        return sum((term.grad(var, **params) for term in self.terms),
+                   Sum([], self.dom, self.cod))
+
 
 Diagram.id = Id
 Diagram.sum = Sum
